@@ -1,0 +1,31 @@
+//go:build verif
+
+// Contracts for the deductive verifier under /verif (comment-only file).
+package sonic
+
+//@ pure func fz(r API) *frozenConfig = cast(*frozenConfig, r)
+
+// Config.Froze: every Config switch is translated to exactly its documented
+// option bit(s) and nothing else is set (property C18).
+//@ func Config.Froze props C18 mode bv
+//@   ensures dyntype(result) == typeid(*frozenConfig) && result != nil
+//@   ensures fz(result).Config == cfg
+//@   ensures (fz(result).encoderOpts & encoder.EscapeHTML != 0) <==> cfg.EscapeHTML
+//@   ensures (fz(result).encoderOpts & encoder.SortMapKeys != 0) <==> cfg.SortMapKeys
+//@   ensures (fz(result).encoderOpts & encoder.CompactMarshaler != 0) <==> cfg.CompactMarshaler
+//@   ensures (fz(result).encoderOpts & encoder.NoQuoteTextMarshaler != 0) <==> cfg.NoQuoteTextMarshaler
+//@   ensures (fz(result).encoderOpts & encoder.NoNullSliceOrMap != 0) <==> cfg.NoNullSliceOrMap
+//@   ensures (fz(result).encoderOpts & encoder.ValidateString != 0) <==> cfg.ValidateString
+//@   ensures (fz(result).encoderOpts & encoder.NoValidateJSONMarshaler != 0) <==> cfg.NoValidateJSONMarshaler
+//@   ensures (fz(result).encoderOpts & encoder.NoEncoderNewline != 0) <==> cfg.NoEncoderNewline
+//@   ensures (fz(result).encoderOpts & encoder.EncodeNullForInfOrNan != 0) <==> cfg.EncodeNullForInfOrNan
+//@   ensures fz(result).encoderOpts &^ (encoder.EscapeHTML | encoder.SortMapKeys | encoder.CompactMarshaler | encoder.NoQuoteTextMarshaler | encoder.NoNullSliceOrMap | encoder.ValidateString | encoder.NoValidateJSONMarshaler | encoder.NoEncoderNewline | encoder.EncodeNullForInfOrNan) == 0
+//@   ensures (fz(result).decoderOpts & decoder.OptionNoValidateJSON != 0) <==> cfg.NoValidateJSONSkip
+//@   ensures (fz(result).decoderOpts & decoder.OptionUseInt64 != 0) <==> cfg.UseInt64
+//@   ensures (fz(result).decoderOpts & decoder.OptionUseNumber != 0) <==> cfg.UseNumber
+//@   ensures (fz(result).decoderOpts & decoder.OptionDisableUnknown != 0) <==> cfg.DisallowUnknownFields
+//@   ensures (fz(result).decoderOpts & decoder.OptionCopyString != 0) <==> cfg.CopyString
+//@   ensures (fz(result).decoderOpts & decoder.OptionValidateString != 0) <==> cfg.ValidateString
+//@   ensures (fz(result).decoderOpts & decoder.OptionCaseSensitive != 0) <==> cfg.CaseSensitive
+//@   ensures (fz(result).decoderOpts & decoder.OptionUseUnicodeErrors != 0) <==> cfg.UseUnicodeErrors
+//@   ensures fz(result).decoderOpts &^ (decoder.OptionNoValidateJSON | decoder.OptionUseInt64 | decoder.OptionUseNumber | decoder.OptionDisableUnknown | decoder.OptionCopyString | decoder.OptionValidateString | decoder.OptionCaseSensitive | decoder.OptionUseUnicodeErrors) == 0
